@@ -168,8 +168,8 @@ def run(c):
             c.coverage["accepted_" + s] = c.coverage.get("accepted_" + s, 0) + sum(1 for x in cases if x["stream"] == s and x["obs"]["kind"] == "ok")
 
     if thorough:
-        for k in range(4):
-            judge(observe(c.seed * 31 + k, 4000, 3000, 2500), "t%d" % k)
+        for k in range(3):
+            judge(observe(c.seed * 31 + k, 1500, 2000, 1200), "t%d" % k)
     else:
         judge(observe(c.seed, 300, 700, 220), "main")
 
